@@ -214,14 +214,19 @@ func TestVerifC10Graph(t *testing.T) {
 			for _, n := range pl.fcStop {
 				b.byIdx[n].failStop = true
 			}
+			pl.cx.arm(b.byIdx, nil)
 			rep := status.NewReporter(func(*componentstatus.InstanceID, *componentstatus.Event) {}, func(error) {})
 			host := &Host{Reporter: rep}
-			errStart := b.g.StartAll(context.Background(), host)
-			nStartEv := len(b.w.log)
-			errStop := b.g.ShutdownAll(context.Background(), rep)
+			var errStop error
+			errStart, errAll, nStartEv := vRunLifetime(b.w, pl.cx,
+				func(ctx context.Context) error { return b.g.StartAll(ctx, host) },
+				func(ctx context.Context) error { errStop = b.g.ShutdownAll(ctx, rep); return errStop })
+			if b.w.ret == nil {
+				b.w.ret = map[[2]int]bool{}
+			}
 			c := &vCase{kind: 0, comps: b.comps, auxs: b.auxs, edges: b.edges, specEdges: specE,
-				fcStart: pl.fcStart, fcStop: pl.fcStop, log: b.w.log}
-			c.errs = append(vErrList(errStart), vErrList(errStop)...)
+				fcStart: pl.fcStart, fcStop: pl.fcStop, log: b.w.log, cx: pl.cx, ret: b.w.ret}
+			c.errs = vErrList(errAll)
 			all := append(append([]int{}, b.comps...), b.auxs...)
 			// the order used by StartAll: started components are a suffix (reversed) of it
 			started := vSeq(b.w.log[:nStartEv], tCStart)
@@ -248,7 +253,13 @@ func TestVerifC10Graph(t *testing.T) {
 				out.Oracle("start-failure", term, fmt.Sprintf("unexpected error: %v / %v", errStart, errStop))
 			}
 			c.oracle(out)
-			nt := len(pl.fcStart)+len(pl.fcStop) > 0
+			nt := len(pl.fcStart)+len(pl.fcStop) > 0 || pl.cx.any()
+			if pl.cx.any() {
+				out.Stat("ctx-scenario", 1)
+				if len(c.errs) > len(pl.fcStart)+len(pl.fcStop) || (len(c.errs) > 0 && len(pl.fcStart)+len(pl.fcStop) == 0) {
+					out.Stat("ctx-induced-errors", 1)
+				}
+			}
 			out.Case(nt, term)
 			switch {
 			case len(pl.fcStart) == 0 && len(pl.fcStop) == 0:
